@@ -159,6 +159,14 @@ type leaf struct {
 
 // typeName gives a stable short name for heap array naming.
 func typeName(t types.Type) string {
+	if b, ok := t.(*types.Basic); ok {
+		switch b.Kind() {
+		case types.Uint8:
+			return "uint8"
+		case types.Int32:
+			return "int32"
+		}
+	}
 	s := types.TypeString(t, func(p *types.Package) string {
 		path := p.Path()
 		path = strings.TrimPrefix(path, "github.com/uber/tchannel-go")
